@@ -121,9 +121,16 @@ var driverErrSeq struct {
 }
 
 // nextDriverErr rotates through driverErrors, separately for every kind of driver operation (so that every kind meets every error).
+// forcedDriverErr, when set for an operation, is reported instead of the rotation (one-shot).
+var forcedDriverErr = map[string]error{}
+
 func nextDriverErr(op string) error {
 	driverErrSeq.mu.Lock()
 	defer driverErrSeq.mu.Unlock()
+	if e, ok := forcedDriverErr[op]; ok {
+		delete(forcedDriverErr, op)
+		return e
+	}
 	if driverErrSeq.n == nil {
 		driverErrSeq.n = map[string]int{}
 	}
